@@ -84,7 +84,7 @@ def model_sites(e, path=()):
             if kind in ("class", "list"):
                 out += model_sites(e["kw"][arg], path + (arg,))
     elif e["t"] == "coll":
-        if any(sub["t"] == "copy" for _, sub in e["items"]):
+        if any(sub["t"] in ("copy", "alias") for _, sub in e["items"]):
             return out          # no edits inside collections holding copies (keeps the edit semantics simple)
         for k, sub in e["items"]:
             out += model_sites(sub, path + (k,))
@@ -373,10 +373,10 @@ def oracle(c, r, root, vec_hex, unit_hex, stats, skip_inst=False):
                 e = lo + units[i] * (hi - lo)
                 if abs(vfu[i] - e) > 1e-12 * max(1.0, abs(e)):
                     return "vector_from_unit_vector[%d] = %r, uniform prior (%r, %r) at unit %r gives %r" % (i, vfu[i], lo, hi, units[i], e)
-        if "exc" in r["inst_unit"]:
-            return "instance_from_unit_vector raised %s but vector_from_unit_vector succeeds" % r["inst_unit"]["exc"]
         if has_division_by_zero(root, dict(zip(refs, vfu))):
             stats["unit:skipped-division-by-zero"] = stats.get("unit:skipped-division-by-zero", 0) + 1
+        elif "exc" in r["inst_unit"]:
+            return "instance_from_unit_vector raised %s but vector_from_unit_vector succeeds" % r["inst_unit"]["exc"]
         else:
             if not same_inst(expected_instance(root, dict(zip(refs, vfu))), r["inst_unit"]["ok"]):
                 return "instance_from_unit_vector differs from the composition evaluated at the priors' values"
